@@ -24,7 +24,7 @@ C07 line-protocol driver (fields separated by one space; byte strings hex, `-` =
                   | redirect [<hex Location>]   (Location only when <orig> starts with `/`)
                   | file <hexpath> <id> | listing <hexpath> <hexname,… or .>
                   | sidecar <hexpath> <id> <hexenc>
-  site <cwd> <root> <hide> <index> <flags> <tries> <path> <tree> <caddyfile>
+  site <cwd> <root> <hide> <index> <flags> <tries> <path> <tree> <caddyfile> [<policy 0|1|L|S|M>]
         a Caddyfile site — `root * <root>` (omitted when `-`), `try_files …` (omitted when `.`),
         `file_server [browse] { hide …; index … (omitted when `.`); pass_thru; disable_canonical_uris }`
         — adapted by the real adapter under the file name <caddyfile>, served by the real http app
@@ -228,7 +228,15 @@ def safeCfg (s : Bytes) : Bool :=
 /-- `site <cwd> <root> <hide> <index> <flags> <tries> <path> <tree> <caddyfile name>`: a Caddyfile
     site (`root *`, `try_files`, `file_server`) adapted by the real adapter and served by the real
     http app; index `.` = not configured (defaults), root `-` = no `root` directive -/
-def handleSite (cwd root hide index flags tries path tree cfname : String) : String :=
+def parsePolicy (s : String) : Option (Option ScanPolicy × Bool) :=
+  if s == "0" then some (none, false) else if s == "1" then some (none, true)
+  else if s == "L" then some (some .largest, false) else if s == "S" then some (some .smallest, false)
+  else if s == "M" then some (some .recent, false) else none
+
+def handleSite (cwd root hide index flags tries path tree cfname : String) (pol : String := "0") : String :=
+  match parsePolicy pol with
+  | none => "bad-op"
+  | some (sp, fb) =>
   match Hex.decode cwd, Hex.decode root, parseList hide, parseList index, flags.toList.mapM parseBit,
         parseTries tries, Hex.decode path, parseTree tree, Hex.decode cfname with
   | some cwd, some root, some hide, some index, some [b, pt, cn], some tries, some path, some tree, some cfname =>
@@ -241,7 +249,7 @@ def handleSite (cwd root hide index flags tries path tree cfname : String) : Str
         { cwd := cwd, root := root, hide := siteHide cwd hide (some cfname),
           index := if index.isEmpty then defaultIndexNames else index,
           browse := b, passThru := pt, canonical := cn }
-        (if tries.isEmpty then none else some tries) path
+        (if tries.isEmpty then none else some tries) path sp fb
       showOutcome r.1 ++ " | " ++ showList r.2
   | _, _, _, _, _, _, _, _, _ => "bad-op"
 
@@ -291,6 +299,8 @@ def handle : List String → String
     handleServe cwd root hide index flags path orig tree pre enc query via etag
   | ["site", cwd, root, hide, index, flags, tries, path, tree, cfname] =>
     handleSite cwd root hide index flags tries path tree cfname
+  | ["site", cwd, root, hide, index, flags, tries, path, tree, cfname, pol] =>
+    handleSite cwd root hide index flags tries path tree cfname pol
   | "pair" :: fault :: rest =>
     -- a faulted browse request A, then request B on another instance; by
     -- `Props.browse_history_independent` the answer is B's own answer
